@@ -20,7 +20,9 @@ CONFIG = {'gen': ['SmbCommands'],
          'Header / Parameters / Data.Unmarshal, AuthContext.ProcessChallengeToken, LLMNR DecodeQuestion / DecodeResourceRecord, '
          'UUIDv1/v2/v8.FromBytes, KeyStrength / KeySource / SecretEncryptionType .FromBytes, the three SecurityFeatures blocks, the 28 '
          'TRANS2 information levels (stub bodies). The input slices have capacity = length. distinct = distinct line; non-trivial = not '
-         'the plain error outcome Allocation audit: after the parallel pass every campaign case is re-run sequentially and runtime.MemStats.TotalAlloc must stay within 256 KiB + 1 KiB per input byte (measured per chunk of 64 cases, bisected to the single case); decimal fields are also driven to 2^24, 2^28, 2^30, 2^32, 2^63-2.',
+         'the plain error outcome Allocation audit: after the parallel pass every campaign case is re-run sequentially and '
+         'runtime.MemStats.TotalAlloc must stay within 256 KiB + 1 KiB per input byte (measured per chunk of 64 cases, bisected to the '
+         'single case); decimal fields are also driven to 2^24, 2^28, 2^30, 2^32, 2^63-2.',
  'assumptions': ['allocation: every slice of the models is a sub-slice or copy of the input (bounds proved for key material, '
                  'DN-with-binary, PKCS#7, the C06 byte counts) except decoded LLMNR/NBNS names, bounded by llmnr_name_alloc_bound; real '
                  'memory use is additionally capped by GOMEMLIMIT in the harness, not measured per case',
